@@ -386,9 +386,11 @@ Structure(ty, j) ==
 
 \* `return structure_from_dict(response.json(), T)` / `return cast(T, response.json())`;  imp = the endpoint module
 \* imports structure_from_dict (the NAME is looked up before response.json() is evaluated)
+JsonError(b) == IF b.ct = "octet" /\ \E i \in 1..Len(b.items) : b.items[i].s = "/2Nk" THEN "UnicodeDecodeError"   \* 0xFF: not UTF-8
+                ELSE "JSONDecodeError"
 FromJson(imp, ty, b) ==
   IF UsesCattrs(ty) /\ ~imp THEN Raised("NameError")
-  ELSE IF ~ParsesAsJson(b) THEN Raised("JSONDecodeError")
+  ELSE IF ~ParsesAsJson(b) THEN Raised(JsonError(b))
   ELSE IF UsesCattrs(ty) THEN Structure(ty, ParsedJson(b))
   ELSE Returned(RawKind(ParsedJson(b)), ParsedJson(b))
 
